@@ -122,7 +122,17 @@ Fixpoint backtrack (r : req) (t : tree) (pref : engine) {struct t} : result (tre
       | Some r1 =>
           do ud <- backtrack r1 t' pref;
           let '(up, done) := ud in
-          do res <- (if tree_eqb up t' && (negb done || uop_eqb (c_second c) cur) then Ok t else finish_apply (c_second c) up);
+          do res <- (if done then
+                       if tree_eqb up t' && uop_eqb (c_second c) cur then Ok t else finish_apply (c_second c) up
+                     else if tree_eqb up t' then Ok t
+                     else
+                       (* only part of the first operation was inserted upstream: the original operation is
+                          re-applied to it if it still can be, otherwise the partial insertion is dropped *)
+                       match apply_simple cur up with
+                       | Ok res => Ok res
+                       | Err ColumnError => Ok t
+                       | Err e => Err e
+                       end);
           Ok (res, done && c_done c)
       end
   | Bin _ _ _ => Ok (t, false)
